@@ -177,6 +177,28 @@ func c09(c *ctx) {
 			}
 		}
 	}
+	// an extension header that breaks the grammar after well-formed items, and right after it (same
+	// goroutine: whatever the library pools comes straight back) a compliant request offering something
+	// else to a negotiator that would also accept the earlier items
+	for bi, bad := range []string{"x-a; a=1, =[", "x-a, x-c; q=\"1, x-b", "=[", "x-a; a=1; =", "x-a;;", ", x-a ="} {
+		for _, mode := range []string{"negotiate", "select", "none"} {
+			for _, api := range apis {
+				q := base
+				q.ExtBad = bad
+				cf := plain
+				cf.ExtAccept, cf.ExtMode = []string{"x-a", "x-b", "x-c"}, mode
+				emit(fmt.Sprintf("extbad/%s/%d/%s/bad", api, bi, mode), api, q, cf)
+				q2 := base
+				q2.Exts = []string{"x-b"}
+				emit(fmt.Sprintf("extbad/%s/%d/%s/next", api, bi, mode), api, q2, cf)
+				for _, api2 := range apis { // ... and through every other entry point
+					if api2 != api && mode != "none" {
+						emit(fmt.Sprintf("extbad/%s/%d/%s/next-%s", api, bi, mode, api2), api2, q2, cf)
+					}
+				}
+			}
+		}
+	}
 	// extensions
 	extLists := [][]string{{"permessage-deflate"}, {"x-a", "x-b", "x-c"}, {"x-b"}, {}}
 	extAcc := [][]string{{"permessage-deflate"}, {"x-b", "x-c"}, {}, {"other"}}
@@ -226,6 +248,11 @@ func c09(c *ctx) {
 					q.Exts, q.ExtLines = exts, extLines
 					cf := scfg{Reject: "negotiate", RejectStatus: st, ExtMode: "negotiate", RejectExt: "x-reject", ExtAccept: []string{"x-a", "x-b"}}
 					emit(fmt.Sprintf("negone/%s/%v/%d/%d", api, exts, extLines, st), api, q, cf)
+					// a negotiator with state of its own: it objects the first time it is asked about that
+					// extension and would accept it when asked again
+					cf.RejectOnce = true
+					cf.ExtAccept = []string{"x-a", "x-b", "x-reject"}
+					emit(fmt.Sprintf("negonce/%s/%v/%d/%d", api, exts, extLines, st), api, q, cf)
 				}
 			}
 		}
